@@ -405,12 +405,71 @@ GPF_ARMS = ("( Os::Windows, CrashReason::WindowsAccessViolation( minidump_errors
 if m.group(1) != GPF_ARMS:
     die("represents_general_protection_fault: the match arms changed; coq/C19/Pipeline.v (is_gpf) must be re-read:\n" + m.group(1))
 
-# ------------------------------------------------------------------ confidence(): NEARBY_REGISTER guard and index
+# ------------------------------------------------------------------ confidence(): the whole body as a list of steps
 cf = norm(fn_body(ps, r"pub fn confidence\(&self\) -> f32\s*\{", "confidence"))
-m = re.search(r"if self\.nearby_registers (>|>=|!=) (\d+) \{ let nearby = (.+?); values\.push\(NEARBY_REGISTER\[nearby\]\); \}", cf)
-if not m:
-    die("confidence(): the NEARBY_REGISTER block is not `if self.nearby_registers <cmp> K { let nearby = E; values.push(NEARBY_REGISTER[nearby]); }`:\n" + cf)
-gop, gk, idx = m.group(1), int(m.group(2)), m.group(3)
+CONST_NAMES = {"BASELINE": "BASELINE_c", "NON_CANONICAL": "NON_CANONICAL_c", "NULL": "NULL_c", "ORIGINAL_LOW": "ORIGINAL_LOW_c",
+               "POISON": "POISON_c"}          # defined by translate/bitflip_consts.py in Gen/BitflipConsts.v
+FLAG_NAMES = {"was_non_canonical": "FNonCanonical", "is_null": "FNull", "was_low": "FLow", "poison_registers": "FPoison"}
+
+
+def cname(n):
+    if n not in CONST_NAMES:
+        die("confidence(): constant %s is not one the constants translator knows" % n)
+    return CONST_NAMES[n]
+
+
+def fname(n):
+    if n not in FLAG_NAMES:
+        die("confidence(): unknown details flag self.%s" % n)
+    return FLAG_NAMES[n]
+
+
+mh = re.match(r"use confidence::\*; let mut values = Vec::with_capacity\(\d+\); ", cf)
+if not mh:
+    die("confidence(): unrecognised prologue:\n" + cf)
+pos = mh.end()
+conf_steps, conf_post = [], []
+gop = gk = idx = None
+while True:
+    rest = cf[pos:]
+    mm = re.match(r"values\.push\((\w+)\); ", rest)
+    if mm:
+        conf_steps.append("CPush %s" % cname(mm.group(1)))
+        pos += mm.end()
+        continue
+    mm = re.match(r"if self\.(\w+) \{ values\.push\((\w+)\); \} ", rest)
+    if mm:
+        conf_steps.append("CIfPush %s %s" % (fname(mm.group(1)), cname(mm.group(2))))
+        pos += mm.end()
+        continue
+    mm = re.match(r"if self\.(\w+) \{ let mut val = (\w+); if self\.(\w+) \{ val \*= (\w+); \} values\.push\(val\); \} ", rest)
+    if mm:
+        conf_steps.append("CIfMulPush %s %s %s %s" % (fname(mm.group(1)), cname(mm.group(2)), fname(mm.group(3)), cname(mm.group(4))))
+        pos += mm.end()
+        continue
+    mm = re.match(r"if self\.nearby_registers (>|>=|!=) (\d+) \{ let nearby = ([^;{}]+); values\.push\(NEARBY_REGISTER\[nearby\]\); \} ", rest)
+    if mm:
+        if gop is not None:
+            die("confidence(): more than one NEARBY_REGISTER lookup")
+        gop, gk, idx = mm.group(1), int(mm.group(2)), mm.group(3)
+        conf_steps.append("CNearby")
+        pos += mm.end()
+        continue
+    break
+mm = re.match(r"let mut ret = combine\(&values\); ", cf[pos:])
+if not mm:
+    die("confidence(): unrecognised statement at: " + cf[pos:pos + 200])
+pos += mm.end()
+while True:
+    mm = re.match(r"if self\.(\w+) \{ ret \*= (\w+); \} ", cf[pos:])
+    if not mm:
+        break
+    conf_post.append("(%s, %s)" % (fname(mm.group(1)), cname(mm.group(2))))
+    pos += mm.end()
+if cf[pos:] != "ret":
+    die("confidence(): unrecognised epilogue: " + cf[pos:pos + 200])
+if gop is None:
+    die("confidence(): no NEARBY_REGISTER lookup found")
 guard = {">": "(n >? %d)", ">=": "(n >=? %d)", "!=": "(negb (n =? %d))"}[gop] % gk
 
 
@@ -564,6 +623,7 @@ L = []
 L.append("(* GENERATED by translate/c19_check.py from minidump-processor/src/{processor,process_state}.rs, minidump/src/system_info.rs, "
          "minidump-common/src/format.rs — do not edit *)")
 L.append("From Coq Require Import ZArith List Bool. Import ListNotations. Open Scope Z_scope.")
+L.append("From RM Require Import Gen.BitflipConsts.")
 L.append("")
 L.append("(* system_info::Cpu, PointerWidth *)")
 L.append("Inductive gcpu := " + " | ".join("G" + c for c in cpus) + ".")
@@ -634,6 +694,16 @@ L.append("(* BitFlipDetails::confidence: guard and index of the NEARBY_REGISTER 
 L.append("   too large value is an index/overflow panic) *)")
 L.append("Definition NEARBY_GUARD (n : Z) : bool := %s." % guard)
 L.append("Definition NEARBY_INDEX (NEARBY_LEN n : Z) : Z := %s." % index)
+L.append("(* the body of confidence(): pushes onto `values` in source order, then combine(), then the multiplications of `ret` *)")
+L.append("Inductive cflag := FNonCanonical | FNull | FLow | FPoison.")
+L.append("Inductive cstep :=")
+L.append("  | CPush (c : Z * option Z)                                       (* values.push(C) *)")
+L.append("  | CIfPush (f : cflag) (c : Z * option Z)                        (* if self.f { values.push(C) } *)")
+L.append("  | CIfMulPush (f1 : cflag) (c1 : Z * option Z) (f2 : cflag) (c2 : Z * option Z)")
+L.append("                                                                  (* if self.f1 { let mut val = C1; if self.f2 { val *= C2 } values.push(val) } *)")
+L.append("  | CNearby.                                                      (* the NEARBY_REGISTER lookup under NEARBY_GUARD *)")
+L.append("Definition CONF_STEPS : list cstep := [%s]." % "; ".join(conf_steps))
+L.append("Definition CONF_POST : list (cflag * (Z * option Z)) := [%s]." % "; ".join(conf_post))
 L.append("")
 L.append("(* get_crash_address (pinned textually): the Windows exception codes whose exception_information[1] is the address *)")
 L.append("Definition WIN_EXCEPTION_ACCESS_VIOLATION : Z := %d." % wcodes["EXCEPTION_ACCESS_VIOLATION"])
